@@ -50,7 +50,7 @@ LEVEL_TEXT = ("The conversion functions are decided completely on all strings up
 LEVEL_NOTE = ("Assumes the converters treat every byte other than CR, LF and NUL "
               "alike (read in breezy/filters/eol.py); trusts the dirstate and "
               "repository (bzrformats) to store what they are given.")
-REGISTERED = False
+REGISTERED = True
 NONTRIVIAL_FLOOR = {"quick": 2000, "thorough": 10000}
 
 SETTINGS = ["exact", "native", "lf", "crlf", "native-with-crlf-in-repo",
